@@ -206,7 +206,16 @@ def _container(kind, items):
   return {"list": lambda: list(items), "tuple": lambda: tuple(items), "deque": lambda: collections.deque(items),
           "set": lambda: set(items), "frozenset": lambda: frozenset(items), "stream": lambda: Stream(list(items)),
           "gen": lambda: (x for x in items), "map": lambda: map(lambda x: x, items),
-          "filter": lambda: filter(lambda x: True, items)}[kind]()
+          "filter": lambda: filter(lambda x: True, items),
+          # one-shot iterators that are not generator objects
+          "listiter": lambda: iter(list(items)), "tupleiter": lambda: iter(tuple(items)),
+          "reversed": lambda: reversed(list(items)[::-1]), "islice": lambda: it.islice(list(items), len(items)),
+          "chain": lambda: it.chain(list(items)[:1], list(items)[1:]),
+          "dictkeys": lambda: iter({i: x for i, x in enumerate(items)}.values()),
+          }[kind]()
+
+
+ITERATORS = ("listiter", "tupleiter", "reversed", "islice", "chain", "dictkeys")
 
 
 def h_elementwise(ctx, cfg):
@@ -254,7 +263,7 @@ def h_elementwise(ctx, cfg):
   if kind == "scalar":
     ctx.prove(same(res, want[0]), "scalar-in-scalar-out")
     return
-  if kind in ("gen", "map", "filter"):
+  if kind in ("gen", "map", "filter") + ITERATORS:
     ctx.prove(isinstance(res, type(x for x in [])), "lazy-input-gives-generator", "type=%s" % type(res).__name__)
     if kind == "gen":
       ctx.prove(pulled[0] == 0, "lazy-input-not-consumed-before-iteration", "pulled %d" % pulled[0])
@@ -450,7 +459,7 @@ def tasks(tier, seed):
     T.append(("h_tree", {"tree": t, "N": 2 if not big else 3}))
   for what in ("attr", "call", "method"):
     T.append(("h_attr_call", {"what": what, "N": N}))
-  for kind in ("scalar", "list", "tuple", "deque", "set", "frozenset", "stream", "gen", "map", "filter"):
+  for kind in ("scalar", "list", "tuple", "deque", "set", "frozenset", "stream", "gen", "map", "filter") + ITERATORS:
     for deco, styles in (("pos", ("positional", "pos+kw", "pos+pos", "keyword")), ("kwonly", ("keyword",)),
                          ("default", ("positional", "pos+kw")), ("pos1", ("positional",))):
       for style in styles:
